@@ -22,6 +22,10 @@ DEFAULT_PROFILE = {
 }
 
 
+# explicit group names: none (generated), ordinary ones, and ones that look exactly like generated names
+GROUP_CHOICES = ["-", "-", "-", "-", "G", "H", "apply-worker-group-0", "starmap-worker-group-1", "map-worker-group-0"]
+
+
 def profile(**kw):
     p = dict(DEFAULT_PROFILE)
     p["w"] = dict(DEFAULT_PROFILE["w"])
@@ -177,7 +181,7 @@ def gen_op(rng, prof, R):
             R.do(on + ["start", str(rng.choice(nums))])
         else:
             sp = gen_spec(rng, prof, ctx)
-            R.do(on + ["apply", str(rng.choice(nums)), rng.choice(["-", "-", "-", "G", "H"])] + sp)
+            R.do(on + ["apply", str(rng.choice(nums)), rng.choice(GROUP_CHOICES)] + sp)
     elif k == "spawn2":
         if simple:
             R.do(on + (["stop", str(rng.randint(-1, 3))] if rng.random() < 0.8 else ["stop_all"]))
@@ -193,7 +197,7 @@ def gen_op(rng, prof, R):
                 items = items[:k] + "2" + items[k + 1:]
             sp = gen_spec(rng, prof, ctx)
             R.do(on + ["map", str(stars), items, str(rng.choice(prof.get("ncs", [0, 1, 1, 2, 2, 3]))),
-                       rng.choice(["-", "-", "-", "G", "H"]), sp[0], sp[1], sp[2], sp[3], sp[5], sp[6]])
+                       rng.choice(GROUP_CHOICES), sp[0], sp[1], sp[2], sp[3], sp[5], sp[6]])
     elif k == "cancel":
         R.do(on + ["cancel"] + [str(rng.randint(-1, 9)) for _ in range(rng.randint(0, 3))])
     elif k == "cancel_group":
